@@ -26,7 +26,7 @@ ASSUMPTIONS = [
     "a race that makes no progress for 400 virtual seconds (only the driver's 1s housekeeping tick) is a stall; hitting the step / virtual-time budget is inconclusive",
     "tasks of an element with completed-by may be cut short or skipped (the statement only protects tasks of OTHER elements); the completing task itself must finish",
 ]
-REQUIRED_CLAUSES = ["no-stall", "completes-exactly-once", "step-barrier", "every-allocation-runs-once", "iterations-not-cut-short", "completed-by-stops-others", "completed-by-ends-element", "complete-sent-at-most-once"]
+REQUIRED_CLAUSES = ["no-stall", "completes-exactly-once", "step-barrier", "every-allocation-runs-once", "iterations-not-cut-short", "completed-by-stops-others", "completed-by-ends-element", "complete-sent-at-most-once", "any-not-before-first-finish"]
 OPTIONAL_CLAUSES = ["complete-not-lost"]
 REQUIRED_FEATURES = {"idle-between-rows-shape": 5, "parallel": 5, "completed-by-name": 3, "completed-by-any": 3, "over-commit": 3, "multi-host": 3, "multi-worker": 5, "adversarial-delays": 3, "empty-worker-cores": 2}
 BUDGET = {"quick": {"cases": 900, "seconds": 34}, "thorough": {"cases": 20000, "seconds": 700}}
@@ -258,16 +258,29 @@ def check_trace(ctx, case, tr, problems, feats, expect_success=True):
             continue
         lo, hi = span[ei][0], span[ei][1]
         next_start = min((span[e][0] for e in span if e > ei), default=float("inf"))
-        ccts = [d for d in tr.cct if lo - 60.0 <= d[0] < next_start]
+        ccts = [d for d in tr.cct if d[4] == ei]
         per_worker, lost = {}, {}
-        for vt, wid, at_jp, start_driving in ccts:
+        for vt, wid, at_jp, start_driving, _ in ccts:
             if at_jp and start_driving:
                 lost.setdefault(wid, []).append(vt)  # arrived between Drive and the wake-up that starts this element: rally ignores it
-            elif not at_jp and vt >= lo - EPS:
+            elif not at_jp:
                 per_worker.setdefault(wid, []).append(vt)
+        all_per_worker = {}
+        for vt, wid, _, _, _ in ccts:
+            all_per_worker.setdefault(wid, []).append(vt)
+        if cb == "any" and ccts:
+            # 'any': the element ends when the FIRST TASK TO FINISH is done - not before any task has finished
+            el_ends = [r["vt_end"] for r in tr.rec.runs if task_el.get(r["task"]) == ei and r["vt_end"] is not None]
+            first_cct = min(d[0] for d in ccts)
+            ctx.clause("any-not-before-first-finish")
+            if not el_ends or first_cct < min(el_ends) - EPS:
+                tasks_here = {t for t in info["tasks"]}
+                idle = [wid for wid, clients in tr.workers.items() if not any(phys in clients for ti in info["tasks"].values() for _, phys in ti["physical"])]
+                problems.append(("any-not-before-first-finish", f"element {ei} (completed-by any): CompleteCurrentTask was delivered at vt={first_cct:.4f} although no task of the element had finished yet "
+                                 f"(first finish at {min(el_ends) if el_ends else None}); workers without any task in this element: {idle}", {"idle_workers_exist": bool(idle)}))
         ctx.clause("complete-sent-at-most-once")
-        if any(len(v) > 1 for v in per_worker.values()):
-            problems.append(("complete-sent-at-most-once", f"element {ei}: CompleteCurrentTask delivered {max(len(v) for v in per_worker.values())} times to one worker within one step", None))
+        if any(len(v) > 1 for v in all_per_worker.values()):
+            problems.append(("complete-sent-at-most-once", f"element {ei}: CompleteCurrentTask delivered {max(len(v) for v in all_per_worker.values())} times to one worker within one step", None))
         for wid, vts in lost.items():
             ctx.clause("complete-not-lost")
             after = [e for e in tr.rec.logical if task_el.get(e["task"]) == ei and info["tasks"][e["task"]]["may_cut"] and worker_of_client.get(e["client"]) == wid and e["vt_begin"] > vts[0]]
@@ -338,6 +351,7 @@ def instrument(k, tr):
     tr.workers = {}
     tr.loaded_track = None
     tr.cct = []
+    tr.drives = {}
     tr.worker_addr = {}
 
     def observer(kernel, r, msg, sender):
@@ -346,13 +360,18 @@ def instrument(k, tr):
             tr.loaded_track = msg.track
             tr.workers[msg.worker_id] = [a["client_id"] for a in msg.client_allocations.allocations]
             tr.worker_addr[r.addr.n] = msg.worker_id
+        elif n == "Drive":
+            wid = tr.worker_addr.get(r.addr.n)
+            tr.drives[wid] = tr.drives.get(wid, 0) + 1
         elif n == "CompleteCurrentTask":
             w = r.inst
             try:
                 at_jp = bool(w.at_joinpoint())
             except Exception:
                 at_jp = None
-            tr.cct.append((kernel.clock.now, tr.worker_addr.get(r.addr.n), at_jp, bool(w.start_driving)))
+            wid = tr.worker_addr.get(r.addr.n)
+            # FIFO with Drive: a CompleteCurrentTask that arrives after the k-th Drive belongs to schedule element k-1
+            tr.cct.append((kernel.clock.now, wid, at_jp, bool(w.start_driving), tr.drives.get(wid, 0) - 1))
 
     k.observers.append(observer)
     return lambda: None
@@ -441,6 +460,8 @@ def classify(v):
     if v["clause"] == "every-allocation-runs-once" and d.get("completing_task") and d.get("over_commit") and len(d.get("task_rows", [])) >= 2 and d.get("row", 0) > d["task_rows"][0] and d.get("other_client_of_task_ran"):
         # a client of the completed-by task that sits in a later row of an over-committed element than another client of the same task
         return "completing-task-clients-in-later-rows-skipped"
+    if v["clause"] == "any-not-before-first-finish" and d.get("idle_workers_exist"):
+        return "completed-by-any-triggered-by-idle-worker"
     if v["clause"] == "completed-by-ends-element" and d.get("worker_had_lost_cct"):
         return "complete-current-task-ignored-between-drive-and-start"
     if v["clause"] == "complete-not-lost" and d.get("lost_cct_at_joinpoint_with_pending_start"):
